@@ -15,6 +15,10 @@ def build(world):
     return hc.build_for(world, PROP)
 
 
+def extra_checks(world):
+    return hc.dispatch_obligations(world, PROP)
+
+
 def replay(world, ob):
     return hn.replay(PROP, world, ob)
 
